@@ -99,6 +99,32 @@ def go_parse_query(q):
     return None if err else vals
 
 
+def go_parse_query_all(q):
+    """what url.URL.Query() returns: ParseQuery's values with its error dropped (malformed pairs skipped)"""
+    vals = []
+    while q:
+        if b"&" in q:
+            key, q = q.split(b"&", 1)
+        else:
+            key, q = q, b""
+        if b";" in key or not key:
+            continue
+        if b"=" in key:
+            key, value = key.split(b"=", 1)
+        else:
+            value = b""
+        k, v = go_unescape(key), go_unescape(value)
+        if k is None or v is None:
+            continue
+        vals.append((k, v))
+    return vals
+
+
+def pqall_tok(q):
+    r = go_parse_query_all(q)
+    return "&".join("%s=%s" % (H(k), H(v)) for k, v in r) if r else "-"
+
+
 def pq_tok(q):
     r = go_parse_query(q)
     if r is None:
@@ -226,6 +252,10 @@ def secret_forms(key, stream, override):
         ("right-nonascii-suffix", b"lal_secret=" + right + "é".encode()),
         ("right-invalid-utf8", b"lal_secret=" + right + b"%ff"),
         ("nonascii-upper", b"lal_secret=" + "É".encode()),
+        ("session-id-only", b"session_id=abc"),
+        ("session-id-wrong", b"session_id=abc&lal_secret=bad"),
+        ("session-id-right", b"session_id=abc&lal_secret=" + right),
+        ("right-session-id", b"lal_secret=" + right + b"&session_id=abc&x="),
     ]
     if override:
         forms += [
@@ -359,7 +389,8 @@ def gen_smcb(tier, rng):
     """the six ServerManager session callbacks with real session objects: own flag only / every flag but the
     own one / all / none - a callback that consults the wrong flag or skips the check shows up"""
     core = ("absent", "empty", "wrong", "right-lower", "right-upper", "right-other-stream", "dup-wrong-right", "malformed-pct",
-            "override-exact", "override-upper", "pct-encoded-right", "key-upper")
+            "override-exact", "override-upper", "pct-encoded-right", "key-upper", "session-id-only", "session-id-wrong", "session-id-right",
+            "right-session-id", "right-among-params")
     for ci, (key, ovr) in enumerate(CONFIGS[:2] + CONFIGS[4:5]):
         for stream in (b"test110", b"T2"):
             forms = [f for f in secret_forms(key, stream, ovr) if f[0] in core or tier != "quick"]
@@ -392,23 +423,67 @@ def sh_stream_of(path):
     return last[:-5] if last.endswith(b".m3u8") else None
 
 
-def servehls_line(flags, key, ovr, scens):
-    md5s, pqs = [], []
+def servehls_line(flags, key, ovr, sub, scens):
+    md5s, pqs, pqalls = [], {}, {}
     for sc in scens:
         for o in sc.split(","):
             f = o.split(":")
             if f[0] == "G":
                 path, q = tok_bytes(f[2]), tok_bytes(f[3])
-                pqs.append((q, pq_tok(q)))
+                pqs[q] = pq_tok(q)
+                pqalls[q] = pqall_tok(q)
                 for st in (sh_stream_of(path), b""):
                     if st is not None:
                         md5s.append((key + st, md5raw(key + st)))
-    pqt = ",".join("%s>%s" % (H(q), t) for q, t in dict(pqs).items()) or "-"
-    return "c14.servehls %d %s %s %s %s %s -" % (flags, H(key), H(ovr), "|".join(scens), table(md5s), pqt)
+    pqt = ",".join("%s>%s" % (H(q), t) for q, t in pqs.items()) or "-"
+    pqa = ",".join("%s>%s" % (H(q), t) for q, t in pqalls.items()) or "-"
+    return "c14.servehls %d %s %s %d %s %s %s - %s" % (flags, H(key), H(ovr), sub, "|".join(scens), table(md5s), pqt, pqa)
+
+
+def mixed_queries(right):
+    """query strings that mix lal_secret with session_id, arbitrary keys, duplicates, empty values, in every order"""
+    secrets = [b"lal_secret=" + right, b"lal_secret=bad", b"lal_secret=", b"lal_secret=" + right.upper(), None]
+    extras = [b"session_id=x", b"session_id=@0", b"session_id=", b"session_id", b"a=1", b"b=", b"session%5Fid=x", b"SESSION_ID=x",
+              b"session_id=a&session_id=@0", b"session_id=@0&session_id=a", b"x=%zz", b"c;d=1", b"session_id=@7",
+              b"session_id=0123456789abcdef0123456789abcdef", b"lal%5Fsecret=" + right, b"&&"]
+    out = [b""]
+    for sec in secrets:
+        if sec is not None:
+            out += [sec, sec + b"&lal_secret=bad", b"lal_secret=bad&" + sec, sec + b"&" + sec]
+        for ex in extras:
+            if sec is None:
+                out.append(ex)
+            else:
+                out += [ex + b"&" + sec, sec + b"&" + ex, b"a=1&" + ex + b"&b=2&" + sec + b"&session_id=zz"]
+    seen, res = set(), []
+    for q in out:
+        if q not in seen:
+            seen.add(q)
+            res.append(q)
+    return res
+
+
+SH_MIX_PATHS = [b"/hls/s1.m3u8", b"/hls/s1/playlist.m3u8", b"/hls/s1/record.m3u8", b"/hls/s1-1-2.ts", b"/hls/s1/s1-1-2.ts"]
 
 
 def gen_servehls(tier, rng):
-    for flags, key, ovr in ((0, b"k", b""), (64, b"q191201771", b""), (64, b"key", b"Ovr")):
+    # (a) every query-string shape x every playlist / fragment URL form, hls flag on/off, sub-session feature on/off:
+    #     not black-listed, black-listed, and (feature on) with an established session @0
+    for flags, key, ovr in ((64, b"q191201771", b""), (0, b"k", b""), (64, b"key", b"Ovr")):
+        right = md5hex(key + b"s1")
+        qs = mixed_queries(right) + ([b"lal_secret=ovr&session_id=@0", b"session_id=@0&lal_secret=OVR"] if ovr else [])
+        for sub in (0, 1):
+            if ovr and sub == 0 and tier == "quick":
+                continue
+            first = sh_get(IP_A, b"/hls/s1.m3u8", b"lal_secret=" + right)     # with the feature on: creates session @0
+            body = ",".join(sh_get(IP_A, p, q) for q in qs for p in SH_MIX_PATHS)
+            few = ",".join(sh_get(IP_A, p, q) for q in qs[::3] for p in SH_MIX_PATHS[::2])
+            scens = [first + "," + body,
+                     first + ",B:%s:100," % H(IP_A) + few + "," + sh_get(IP_B, b"/hls/s1.m3u8", b"lal_secret=" + right + b"&session_id=@0"),
+                     body]
+            yield Case(servehls_line(flags, key, ovr, sub, scens), cls="servehls-mix-f%d-s%d" % (flags, sub))
+    # (b) black-list histories against the wall clock
+    for flags, key, ovr, sub in ((0, b"k", b"", 0), (64, b"key", b"Ovr", 1)) + (((64, b"q191201771", b"", 0),) if tier != "quick" else ()):
         right = b"lal_secret=" + md5hex(key + b"s1")
         qs = [b"", right, b"lal_secret=bad"] + ([b"lal_secret=ovr"] if ovr else [])
 
@@ -419,6 +494,7 @@ def gen_servehls(tier, rng):
                 if flags and p.endswith(b".m3u8"):
                     out.append(sh_get(ip, p, right))
             return ",".join(out)
+        sess = sh_get(IP_A, b"/hls/s1.m3u8", right) + "," + sh_get(IP_A, b"/hls/s1.m3u8", right + b"&session_id=@0")
         scens = [
             # before / during (same second, next second = still listed) / after expiry, and another address meanwhile
             ",".join([allget(IP_A), "B:%s:1" % H(IP_A), allget(IP_A, 1), allget(IP_B, 2), "S:1", allget(IP_A, 3), "S:1", allget(IP_A)]),
@@ -427,36 +503,39 @@ def gen_servehls(tier, rng):
             ",".join(["B:%s:5" % H(IP_B), allget(IP_A), allget(IP_B, 1), "S:2", allget(IP_B, 2)]),
             ",".join(["B:%s:2" % H(IP_A), "S:1", allget(IP_A), "B:%s:0" % H(IP_A), allget(IP_A, 1), "S:1", allget(IP_A, 2)]),
             ",".join(["B:%s:1" % H(IP_A), "S:1", "B:%s:2" % H(IP_A), "S:1", allget(IP_A), "S:1", allget(IP_A, 1)]),
-            # fragments only, by a client that never asks for the playlist again
-            ",".join([sh_get(IP_A, b"/hls/s1.m3u8", right), "B:%s:2" % H(IP_A), sh_get(IP_A, b"/hls/s1-1-2.ts"), sh_get(IP_A, b"/hls/s1/s1-1-2.ts"),
-                      "S:1", sh_get(IP_A, b"/hls/s1-1-2.ts"), sh_get(IP_A, b"/hls/a-b-1-2.ts"), "S:2", sh_get(IP_A, b"/hls/s1-1-2.ts"), sh_get(IP_A, b"/hls/s1/s1-1-2.ts")]),
+            # fragments only, by a client that never asks for the playlist again; its session is closed by the black-listed request
+            ",".join([sess, "B:%s:2" % H(IP_A), sh_get(IP_A, b"/hls/s1-1-2.ts", b"session_id=@0"), sh_get(IP_A, b"/hls/s1/s1-1-2.ts"),
+                      "S:1", sh_get(IP_A, b"/hls/s1-1-2.ts"), sh_get(IP_A, b"/hls/a-b-1-2.ts"), "S:2", sh_get(IP_A, b"/hls/s1-1-2.ts"),
+                      sh_get(IP_A, b"/hls/s1/s1-1-2.ts", b"session_id=@0"), sh_get(IP_A, b"/hls/s1.m3u8", right + b"&session_id=@0")]),
             allget(IP_A, 1),
         ]
-        yield Case(servehls_line(flags, key, ovr, scens), cls="servehls-f%d" % flags)
+        yield Case(servehls_line(flags, key, ovr, sub, scens), cls="servehls-f%d-s%d" % (flags, sub))
     if tier == "thorough":
         for _ in range(4):
             flags, key, ovr = rng.choice([(0, b"k", b""), (64, b"key", b"Ovr")])
-            right = b"lal_secret=" + md5hex(key + b"s1")
+            sub = rng.randrange(2)
+            right = md5hex(key + b"s1")
+            qs = mixed_queries(right)
             scens = []
             for _ in range(10):
                 ops, slept = [], 0
-                for _ in range(rng.randrange(3, 14)):
+                for _ in range(rng.randrange(3, 30)):
                     r = rng.random()
                     ip = rng.choice([IP_A, IP_B])
-                    if r < 0.25:
+                    if r < 0.15:
                         ops.append("B:%s:%d" % (H(ip), rng.choice([-1, 0, 1, 2, 9])))
-                    elif r < 0.85 or slept >= 3:
-                        ops.append(sh_get(ip, rng.choice(list(SH_GOOD) + SH_OTHER), rng.choice([b"", right, b"lal_secret=bad"])))
+                    elif r < 0.9 or slept >= 3:
+                        ops.append(sh_get(ip, rng.choice(list(SH_GOOD) + SH_OTHER), rng.choice(qs)))
                     else:
                         ops.append("S:1")
                         slept += 1
                 scens.append(",".join(ops))
-            yield Case(servehls_line(flags, key, ovr, scens), cls="servehls-random")
+            yield Case(servehls_line(flags, key, ovr, sub, scens), cls="servehls-random")
 
 
-def servehls_check(flags, key, ovr, sc, out):
+def servehls_check(flags, key, ovr, sub, sc, out):
     """the property on one serveHls history"""
-    now, until = 0, {}
+    now, until, sessions, made = 0, {}, set(), 0
     res = out.split(",") if out != "-" else []
     k = 0
     for o in sc.split(","):
@@ -472,19 +551,47 @@ def servehls_check(flags, key, ovr, sc, out):
             k += 1
             ip, path, q = tok_bytes(f[1]), tok_bytes(f[2]), tok_bytes(f[3])
             content = r.startswith("200:")
+            redirect = r.startswith("302r")
             blocked = ip in until and now <= until[ip]
-            if blocked and content:
-                return "black-listed address %r was served %r %d s before its entry expires" % (ip, path, until[ip] - now)
+            sid = b""
+            for kk, vv in go_parse_query_all(q):
+                if kk == b"session_id":
+                    sid = vv
+                    break
+            if redirect:
+                if not sub:
+                    return "redirect to a session although the sub-session feature is off: %r" % path
+                if r != "302r:" + H(b"@%d" % made):
+                    return "unexpected redirect answer " + r
+                sessions.add(b"@%d" % made)
+                made += 1
             st = sh_stream_of(path)
             auth_ok = True
             if st is not None and flags & 64:
                 auth_ok = simple_expected_admit(flags, key, ovr, 2, b"HLS", st, q)
-            if not auth_ok and content:
-                return "playlist %r served although simple auth must reject query %r" % (path, q)
+            if not auth_ok and (content or redirect):
+                return "playlist request %r?%r is answered %s although its URL does not carry the secret" % (path, q, r[:5])
+            if not auth_ok:
+                continue
+            if blocked:
+                if content or redirect:
+                    return "black-listed address %r was served %r %d s before its entry expires" % (ip, path, until[ip] - now)
+                sessions.discard(sid)
+                continue
             if content and not tok_bytes(r[4:]).startswith(b"/T1/T2/outer/root/"):
                 return "file %r outside the root served for %r" % (tok_bytes(r[4:]), path)
-            if not blocked and auth_ok and path in SH_GOOD and r != "200:" + H(SH_GOOD[path]):
-                return "request %r of an address that is not black-listed (any more) is answered %s" % (path, r)
+            # availability: authorised, not black-listed
+            is_ts = path.endswith(b".ts")
+            if sub and sid and (is_ts or st is not None) and sid not in sessions:
+                if content:
+                    return "content served for the unknown session id %r" % sid
+                continue
+            if sub and st is not None and not sid:
+                if not redirect:
+                    return "authorised playlist request %r?%r is not redirected to a new session: %s" % (path, q, r)
+                continue
+            if path in SH_GOOD and r != "200:" + H(SH_GOOD[path]):
+                return "authorised request %r?%r of an address that is not black-listed is answered %s" % (path, q, r)
     return None
 
 
@@ -866,12 +973,12 @@ def oracle(c, out):
             return (o == ["0x0", "1"], "callback %d: an authorised session is not admitted / attached: %s" % (cb, out))
         return (o[0] != "0x0" and o[1] == "0", "callback %d: a session that must be rejected is admitted or attached to its group: %s" % (cb, out))
     if op == "c14.servehls":
-        flags, key, ovr = int(f[1]), tok_bytes(f[2]), tok_bytes(f[3])
-        scens, outs = f[4].split("|"), out.split("|")
+        flags, key, ovr, sub = int(f[1]), tok_bytes(f[2]), tok_bytes(f[3]), int(f[4])
+        scens, outs = f[5].split("|"), out.split("|")
         if len(scens) != len(outs):
             return (False, "unexpected output " + out[:200])
         for sc, o in zip(scens, outs):
-            why = servehls_check(flags, key, ovr, sc, o)
+            why = servehls_check(flags, key, ovr, sub, sc, o)
             if why:
                 return (False, "serveHls: " + why)
         return (True, "")
